@@ -64,7 +64,7 @@ func (p *Prov) isEagerPrefixTest(a Atom) bool {
 		return false
 	}
 	g, ok := gl.X.(*ssa.Global)
-	return ok && g.Name() == "eagerRedactionPaths"
+	return ok && p.c.roleName(g) == "eagerRedactionPaths"
 }
 
 // rewriteBeforeReadProblems: reads of attr[key] in the line function that can execute
@@ -231,7 +231,7 @@ func ruleC12(c *Ctx, r *Report) {
 		}
 		for _, f := range allFacts(nsSet.Block()) {
 			if ld, ok := f.Cond.(*ssa.UnOp); ok && f.Pol {
-				if g, ok := ld.X.(*ssa.Global); ok && g.Name() == "redactNamespaces" {
+				if g, ok := ld.X.(*ssa.Global); ok && c.roleName(g) == "redactNamespaces" {
 					flagIf = f.If
 				}
 			}
@@ -538,7 +538,7 @@ func ruleC15(c *Ctx, r *Report) {
 		for _, l := range iterLoops(root) {
 			if l.Kind == "slice" {
 				if ld, ok := l.Coll.(*ssa.UnOp); ok {
-					if g, ok := ld.X.(*ssa.Global); ok && g.Name() == "eagerRedactionPaths" {
+					if g, ok := ld.X.(*ssa.Global); ok && c.roleName(g) == "eagerRedactionPaths" {
 						modeLoop = l
 					}
 				}
